@@ -199,4 +199,22 @@ theorem scan_args : ∀ (args : List (List Byte × Item)) (final : Option (List 
         rw [← q1, hargc2]
         congr 1; omega
 
+/-- without a final word the loop is still running, outside quotes, after the arguments -/
+theorem scan_args_state : ∀ (args : List (List Byte × Item)) (s : Sc),
+    s.brk = false → s.quote = 0 → s.argv.length = argvLen →
+    (∀ a ∈ args, Blanks a.1 ∧ a.2.Ok) → s.argc + args.length < argvLen →
+    (scan s (renderArgs args)).brk = false ∧ (scan s (renderArgs args)).quote = 0
+  | [], s, hb, hq, _, _, _ => ⟨hb, hq⟩
+  | (sep, it) :: rest, s, hb, hq, hl, hargs, hc => by
+    obtain ⟨hsep, hok⟩ := hargs (sep, it) (List.mem_cons_self ..)
+    simp only [List.length_cons] at hc
+    obtain ⟨a1, p1⟩ := scan_blanks sep s hb hq hsep.1 (blanks_isspace sep hsep)
+    have hl1 : (scan s sep).argv.length = argvLen := by rw [a1.argv]; exact hl
+    obtain ⟨p, a2, _⟩ := scan_item it (scan s sep) a1.brk a1.quote p1 hok (by rw [a1.argc]; omega) hl1
+    have hl2 : (scan (scan s sep) it.render).argv.length = argvLen := by rw [a2.argv, List.length_set]; exact hl1
+    have hrun : renderArgs ((sep, it) :: rest) = sep ++ (it.render ++ renderArgs rest) := by simp [renderArgs]
+    rw [hrun, scan_append, scan_append]
+    exact scan_args_state rest _ a2.brk a2.quote hl2 (fun a ha => hargs a (List.mem_cons_of_mem _ ha))
+      (by rw [a2.argc, a1.argc]; omega)
+
 end Librfn.Lemmas.ConsoleRound
